@@ -8,6 +8,7 @@ import (
 	"fmt"
 	"os"
 	"os/exec"
+	"path/filepath"
 	"regexp"
 	"sort"
 	"strings"
@@ -571,6 +572,106 @@ func sweepAgain(c *core.Ctx) {
 	}, func(a againCase) string { return a.src() }, func(a againCase, o panrun.Obs) { judgeAgain(c, a, o) })
 }
 
+// ---------------------------------------------------------------- programs spread over several files (real binary)
+
+// An error raised while a file is loaded (import / invite! / a file of `pangaea test`) is delivered every time
+// that file is loaded, and nothing written after the failing load - in the script, or in the test tree - runs.
+type loadCase struct {
+	Mode    string            `json:"mode"` // "load"
+	Name    string            `json:"name"`
+	Files   map[string]string `json:"files"`
+	Args    []string          `json:"args"`
+	WantOut string            `json:"want_out"`
+	WantErr string            `json:"want_err"` // first line of stderr
+}
+
+func loadCases() []loadCase {
+	broken := "\"loading\".p\nname := \"demo\"\nretries := 1 / 0\nafter := 1\n"
+	var cs []loadCase
+	for _, how := range []string{"import", "invite!"} {
+		for _, handler := range []string{"nil.try.{|u| LOAD}.err?.p", "(5~.{|u| LOAD}).p", "[1]~@{|u| LOAD}.p"} {
+			first := strings.ReplaceAll(handler, "LOAD", how+"(\"./mods/broken\")")
+			caught := map[string]string{"nil.try.{|u| LOAD}.err?.p": "true\n", "(5~.{|u| LOAD}).p": "5\n", "[1]~@{|u| LOAD}.p": "[1]\n"}[handler]
+			cs = append(cs, loadCase{Mode: "load", Name: how + "-failing-file-twice", Files: map[string]string{"mods/broken.pangaea": broken,
+				"main.pangaea": "\"before\".p\n" + first + "\nm := " + how + "(\"./mods/broken\")\n\"not reached\".p\n"}, Args: []string{"main.pangaea"},
+				WantOut: "before\nloading\n" + caught + "loading\n", WantErr: "ZeroDivisionErr: cannot be divided by 0"})
+		}
+		cs = append(cs, loadCase{Mode: "load", Name: how + "-unparsable-file-twice", Files: map[string]string{"mods/bad.pangaea": "x := (1\n",
+			"main.pangaea": "\"before\".p\nnil.try.{|u| " + how + "(\"./mods/bad\")}.err?.p\n" + how + "(\"./mods/bad\")\n\"not reached\".p\n"}, Args: []string{"main.pangaea"},
+			WantOut: "before\ntrue\n", WantErr: "SyntaxErr: failed to parse"})
+	}
+	// `pangaea test`: the run ends at the first file that raises, wherever that file lies in the tree
+	tree := func(failing string) map[string]string {
+		fs := map[string]string{}
+		for _, f := range []string{"01_unit/a_test", "01_unit/b_test", "01_unit/c_test", "02_integration/d_test", "02_integration/sub/e_test", "03_last/f_test"} {
+			body := "\"" + f + "\".p\n"
+			if f == failing {
+				body += "raise ValueErr.new(\"bad\")\n"
+			}
+			fs["suite/"+f+".pangaea"] = body
+		}
+		return fs
+	}
+	order := []string{"01_unit/a_test", "01_unit/b_test", "01_unit/c_test", "02_integration/d_test", "02_integration/sub/e_test", "03_last/f_test"}
+	for fi, failing := range order {
+		want := ""
+		for _, f := range order[:fi+1] {
+			want += "run:  suite/" + f + ".pangaea\n" + f + "\n"
+			if f != failing {
+				want += "pass: suite/" + f + ".pangaea\n"
+			}
+		}
+		cs = append(cs, loadCase{Mode: "load", Name: "test-tree-failing-" + strings.ReplaceAll(failing, "/", "-"), Files: tree(failing), Args: []string{"test", "suite"}, WantOut: want, WantErr: "ValueErr: bad"})
+	}
+	return cs
+}
+
+func judgeLoad(c *core.Ctx, t loadCase) {
+	c.Eval(1)
+	c.Validated(1)
+	c.Nontrivial(1)
+	cli := os.Getenv("PANMC_CLI")
+	if cli == "" {
+		c.HarnessError("PANMC_CLI is not set")
+		return
+	}
+	dir, err := os.MkdirTemp(os.Getenv("PANMC_SCRATCH"), "c07load")
+	if err != nil {
+		c.HarnessError("%v", err)
+		return
+	}
+	defer os.RemoveAll(dir)
+	for name, body := range t.Files {
+		os.MkdirAll(filepath.Join(dir, filepath.Dir(name)), 0o755)
+		os.WriteFile(filepath.Join(dir, name), []byte(body), 0o644)
+	}
+	cmd := exec.Command("timeout", append([]string{"60", cli}, t.Args...)...)
+	cmd.Dir = dir
+	var so, se strings.Builder
+	cmd.Stdout, cmd.Stderr = &so, &se
+	runErr := cmd.Run()
+	code := 0
+	if runErr != nil {
+		code = 1
+	}
+	first := strings.SplitN(se.String(), "\n", 2)[0]
+	c.Outcome("load:" + t.Name)
+	class := ""
+	switch {
+	case so.String() != t.WantOut:
+		class = "continued-or-skipped"
+	case code == 0:
+		class = "error-dropped"
+	case !strings.HasPrefix(first, t.WantErr):
+		class = "wrong-error"
+	}
+	if class == "" {
+		return
+	}
+	c.Violation(core.Violation{Key: "several-files/" + t.Name + "/" + class, Case: core.JSON(t), Desc: t.Name + " " + strings.Join(t.Args, " "), Expected: fmt.Sprintf("stdout %q, exit != 0, stderr starting %q", t.WantOut, t.WantErr),
+		Observed: fmt.Sprintf("stdout %q, exit %d, stderr starting %q", so.String(), code, first)})
+}
+
 func run(c *core.Ctx) {
 	c.Note("constructs", len(all))
 	findLeaky(c)
@@ -598,6 +699,8 @@ func run(c *core.Ctx) {
 	cs := cliCases()
 	tk.Sharded(c, len(cs), func(i int) { judgeCLI(c, cs[i]) })
 	c.Note("command_line_cases_total", len(cs))
+	ls := loadCases()
+	tk.Sharded(c, len(ls), func(i int) { judgeLoad(c, ls[i]) })
 	c.Note("thunk_cases_total", total)
 	c.Note("program_cases_total", len(progCases))
 	// top-level programs: one parse + evaluation each, in an own scope (checks the assignment too)
@@ -857,6 +960,11 @@ func replay(c *core.Ctx, raw json.RawMessage) {
 		obs := c.R().Thunks(prelude, []string{cb.src()}, "")
 		c.Eval(1)
 		judgeCallback(c, cb, obs[0])
+		return
+	}
+	var lc loadCase
+	if json.Unmarshal(raw, &lc) == nil && lc.Mode == "load" {
+		judgeLoad(c, lc)
 		return
 	}
 	var ag againCase
